@@ -64,37 +64,7 @@ def key_of(ops, step):
 
 
 def check_executions(ctx, binary, executions, tag):
-    trace = os.path.join(ctx.work, "trace_%s.ndjson" % tag)
-    dr = vlib.run_driver(binary, executions, trace)
-    ctx.evaluations += sum(len(e) for e in executions)
-    for idx, out, kind in dr.crashes:
-        ops = executions[idx]
-        p = ctx.save_replay("%s_crash_%d.ops" % (tag, idx), ["reset"] + ops)
-        # find the step: number of lines logged for that execution is unknown here; key on the whole execution
-        ctx.report("%s:%s" % (key_of(ops, len(ops)), kind), p, "driver %s in execution %d:\n%s" % (kind, idx, out[-1500:]))
-    r, mism, done = vlib.validate_trace(SPECDIR, "ByteQueueTrace", "ByteQueueTrace.cfg", trace)
-    ctx.add_tlc("trace:" + tag, r, must_pass=False)
-    if r.violation:
-        ctx.broken.append("trace spec invariant violated: " + r.violation[:800])
-    if not done and not r.broken:
-        ctx.broken.append("trace validation of %s did not reach the end of the trace" % tag)
-    index = vlib.index_trace(trace)
-    badexec = set()
-    for line, why in mism:
-        ex, step = index[line - 1]
-        if ex in badexec:
-            continue          # later mismatches of an execution may be consequences of the first
-        badexec.add(ex)
-        ops = executions[ex]
-        p = ctx.save_replay("%s_mismatch_%d.ops" % (tag, ex), ["reset"] + ops[:step])
-        ctx.report(key_of(ops, step), p, "Layer-1 mismatch at step %d (%s) of execution %d: ops=%s" % (step, why, ex, ops[:step]))
-    crashed = {c[0] for c in dr.crashes}
-    ctx.traces += len(executions) - len(badexec | crashed)
-    for e in executions:
-        if len(e) >= 2:
-            ctx.distinct.add(tuple(e))
-    if executions:
-        ctx.sample({"source": tag, "ops": executions[len(executions) // 2][:12]})
+    vlib.check_executions(ctx, binary, executions, tag, SPECDIR, "ByteQueueTrace", "ByteQueueTrace.cfg", key_of)
 
 
 def label_to_op(name, args):
@@ -135,7 +105,5 @@ def run(ctx):
 
 def replay(ctx, path):
     binary = build()
-    with open(path) as f:
-        ops = [x.strip() for x in f if x.strip() and x.strip() != "reset"]
-    check_executions(ctx, binary, [ops], "replay")
+    check_executions(ctx, binary, vlib.read_ops_file(path), "replay")
     return vlib.finish(ctx, "model_checking", "replay of one op sequence")
